@@ -1,6 +1,7 @@
 package main
 
 import (
+	"golang.org/x/tools/go/packages"
 	"os/exec"
 	"encoding/json"
 	"flag"
@@ -364,9 +365,12 @@ func cmdCheck(args []string) int {
 	}
 	e := loadAll(cfg.Packages)
 	e.goLedgerOn = cfg.GoLedger
-	timeout := 10
+	// proof obligations: 30 s (quick) / 90 s (thorough); almost all discharge in
+	// well under a second, the margin is for the few that only one solver decides
+	// (seconds) when the machine is loaded. Vacuity canaries are capped at 10 s.
+	timeout := 30
 	if tier == "thorough" {
-		timeout = 60
+		timeout = 90
 	}
 	axErrs := e.InstallAxioms()
 
@@ -394,6 +398,30 @@ func cmdCheck(args []string) int {
 		addUnit(uc.Key, uc.Sweep)
 	}
 	var specKeys, anchorKeys []string
+	// module packages imported (transitively) by the packages of the anchor files
+	depPkgs := map[string]bool{}
+	if !cfg.NoAnchorFiles {
+		var walk func(p *packages.Package)
+		walk = func(p *packages.Package) {
+			for _, ip := range p.Imports {
+				if ip.Module == nil || ip.Module.Path != modulePath || depPkgs[ip.PkgPath] {
+					continue
+				}
+				depPkgs[ip.PkgPath] = true
+				walk(ip)
+			}
+		}
+		for f := range anchorFiles {
+			dir := filepath.Dir(f)
+			pp := modulePath
+			if dir != "." {
+				pp = modulePath + "/" + filepath.ToSlash(dir)
+			}
+			if p := e.pkgs[pp]; p != nil {
+				walk(p)
+			}
+		}
+	}
 	for k, fs := range e.specs.Funcs {
 		if fs.Trusted {
 			continue
@@ -413,6 +441,10 @@ func cmdCheck(args []string) int {
 		if len(anchorFiles) > 0 && len(fs.Extra["props"]) > 0 {
 			if fi := e.byKey[strings.SplitN(k, "$lit", 2)[0]]; fi != nil && fi.Decl != nil {
 				if rel, err := filepath.Rel(repoDir, e.fset.Position(fi.Decl.Pos()).Filename); err == nil && anchorFiles[filepath.Clean(rel)] {
+					anchorKeys = append(anchorKeys, k)
+				} else if depPkgs[fi.Pkg.PkgPath] {
+					// a package of this module that the anchor files' packages
+					// import (transitively): the property's code runs through it
 					anchorKeys = append(anchorKeys, k)
 				}
 			}
